@@ -222,6 +222,11 @@ func lenIs(v *Val, path string) bool {
 // covered: every index selector of the (definite) access path is the induction variable of a loop that encloses
 // the record and fully ranges over the prefix collection; constant indices are allowed only as listed (fixed arrays).
 func (r *Run) covered(rec *Rec, path string) (bool, string) {
+	return r.coveredAssuming(rec, path, nil)
+}
+
+// coveredAssuming: like covered, but loop id → collection pairs in assume have been shown full by other means
+func (r *Run) coveredAssuming(rec *Rec, path string, assume map[int]string) (bool, string) {
 	sels := splitSel(path)
 	prefix := ""
 	for _, s := range sels {
@@ -231,6 +236,9 @@ func (r *Run) covered(rec *Rec, path string) (bool, string) {
 				id := atoi(s[3 : len(s)-1])
 				if !hasInt(rec.Loops, id) {
 					return false, fmt.Sprintf("index %s of %s is not an induction variable of a loop enclosing the call", s, prefix)
+				}
+				if assume != nil && assume[id] == prefix {
+					break
 				}
 				if okk, why := r.loopFull(id, prefix, rec); !okk {
 					return false, why
@@ -276,15 +284,23 @@ func (r *Run) findCovering(kind string, argIdx int, pat string, extra func(*Rec)
 		if extra != nil && !extra(rec) {
 			continue
 		}
+		assume := map[int]string{}
 		if p, okk := a.Definite(); !okk || p != matched {
-			why = append(why, fmt.Sprintf("%s: argument may also be something other than %s (%s)", r.site(rec), matched, a.short(1)))
-			continue
+			// a loop over a literal table of lists (for _, l := range [][]T{a, b, c} { for _, x := range l { … } }):
+			// the argument is "one of" a[i], b[i], c[i] and the inner loop is bounded by "one of" their lengths — by
+			// construction the same one. Accepted when the table's content is exactly those lists and its loop is full.
+			k, okT, whyT := r.tableDriven(rec, a, matched)
+			if !okT {
+				why = append(why, fmt.Sprintf("%s: argument may also be something other than %s (%s)%s", r.site(rec), matched, a.short(1), whyT))
+				continue
+			}
+			assume = k
 		}
 		if !rec.Must {
 			why = append(why, fmt.Sprintf("%s: does not execute on every path / every iteration (conditional, continue or early exit around it)", r.site(rec)))
 			continue
 		}
-		if okk, w := r.covered(rec, matched); !okk {
+		if okk, w := r.coveredAssuming(rec, matched, assume); !okk {
 			why = append(why, fmt.Sprintf("%s: %s", r.site(rec), w))
 			continue
 		}
@@ -365,4 +381,75 @@ func typeIs(t types.Type, names ...string) bool {
 		}
 	}
 	return false
+}
+
+// tableDriven: see findCovering. Returns the loops it has shown full (loop id → collection path).
+func (r *Run) tableDriven(rec *Rec, a *Val, matched string) (map[int]string, bool, string) {
+	if a == nil || a.Mixed || len(a.Dir) < 2 {
+		return nil, false, ""
+	}
+	// the selector of the matched path that indexes the list whose loop has a multi-valued bound
+	sels := splitSel(matched)
+	prefix := ""
+	for si, sel := range sels {
+		if strings.HasPrefix(sel, "[iv") {
+			id := atoi(sel[3 : len(sel)-1])
+			ld := r.In.Loops[id]
+			if ld != nil && ld.Bound != nil && len(ld.Bound.LenOf) == len(a.Dir) && hasInt(rec.Loops, id) {
+				rest := strings.Join(sels[si:], "")
+				// every alternative of the argument is <list_j><rest>, and the lists are exactly the loop's bounds
+				var lists []string
+				for _, p := range a.Dir {
+					if !strings.HasSuffix(p, rest) {
+						return nil, false, ""
+					}
+					lists = append(lists, strings.TrimSuffix(p, rest))
+				}
+				sort.Strings(lists)
+				bounds := append([]string(nil), ld.Bound.LenOf...)
+				sort.Strings(bounds)
+				if strings.Join(lists, "|") != strings.Join(bounds, "|") {
+					return nil, false, " — the inner loop is bounded by other lists than the ones indexed"
+				}
+				sl := ld.S
+				if !sl.Counted || !sl.SingleExit || sl.Step != 1 || sl.StartConst == nil || *sl.StartConst != 0 || (sl.Op != token.LSS && sl.Op != token.NEQ) {
+					return nil, false, " — the inner loop is not a full 0..len-1 loop"
+				}
+				// an enclosing loop that is full over a local table whose content is exactly these lists
+				for _, tid := range rec.Loops {
+					if tid == id {
+						break
+					}
+					tl := r.In.Loops[tid]
+					if tl == nil || tl.Bound == nil || tl.Bound.Aux == nil || len(tl.Bound.LenOf) != 1 || !strings.HasPrefix(tl.Bound.LenOf[0], "c:") {
+						continue
+					}
+					seq, ok := r.In.seqOf(tl.Bound.Aux)
+					if !ok || len(seq) != len(lists) {
+						continue
+					}
+					var content []string
+					okSeq := true
+					for _, e := range seq {
+						p, def := e.Definite()
+						if !def {
+							okSeq = false
+						}
+						content = append(content, p)
+					}
+					sort.Strings(content)
+					if !okSeq || strings.Join(content, "|") != strings.Join(lists, "|") {
+						continue
+					}
+					if okk, _ := r.loopFull(tid, tl.Bound.LenOf[0], rec); !okk {
+						continue
+					}
+					return map[int]string{id: prefix}, true, ""
+				}
+				return nil, false, " — no full loop over a literal table holding exactly these lists encloses the call"
+			}
+		}
+		prefix += sel
+	}
+	return nil, false, ""
 }
